@@ -135,15 +135,24 @@ def run(ctx):
     ctx.sample([r for r in srows if r.get("ev") == "Stress"][0] if len(srows) > 1 else srows[0])
 
     rej = E.validate(ctx, "Trace_Locks", "Trace_Locks.cfg", rows)
+    # one finding per struct for unprotected accesses (one missing Lock shows up at many fields)
+    ung = {}
+    for r in rej:
+        if r["event"]["ev"] == "Unguarded":
+            ung.setdefault(r["event"]["struct"], []).append(r["event"])
+    for st, evs in sorted(ung.items()):
+        evs.sort(key=lambda e: (not e["write"], e["pos"]))
+        text = "; ".join("%s in %s (%s)" % (e["field"], e["fn"], e["pos"]) for e in evs[:6])
+        E.report(ctx, "Unguarded:%s" % st, "rejected Unguarded: state of %s accessed without %s: %s%s" % (
+            st, evs[0]["mu"], text, " ..." if len(evs) > 6 else ""), {"events": evs})
     for r in rej:
         ev = r["event"]
         k = ev["ev"]
+        if k == "Unguarded":
+            continue
         if k in ("Edge", "SendUnder", "CloseUnder"):
             sig = "%s:%s->%s" % (k, ev["from"], ev["to"])
             text = "%s while holding %s; witness: %s" % (ev["to"], ev["from"], " | ".join(ev["witness"]))
-        elif k == "Unguarded":
-            sig = "Unguarded:%s" % ev["field"]
-            text = "%s accessed without %s in %s (%s)" % (ev["field"], ev["mu"], ev["fn"], ev["pos"])
         elif k == "Leak":
             sig = "Leak:%s" % ev["mu"]
             text = "%s still held when %s returns (%s)" % (ev["mu"], ev["fn"], ev["pos"])
